@@ -389,7 +389,7 @@ impl Check for C17 {
         "C17"
     }
     fn rule(&self) -> String {
-        "proptest-generated source trees (3-21 entries over 12 names: files, directories incl. empty ones, hidden names, symlinks to files and to directories, depth <= 3) with a root .gitignore of 1-8 lines from a grammar instantiated over names that occur in the tree (and one that does not): literal, *.ext, prefix*, *suffix, ?, n?, **/n, n/**, n/ (directory only), /n (anchored), dir/n, each optionally negated with !, comments and blank lines (never a pattern matching .gitignore itself, no nested .gitignore); optionally a second source directory with its own tree and .gitignore; source directories named from the same name pool (so entries named like their source occur); both drivers; with and (15%) without --gitignore. Oracle: git itself - `git check-ignore --no-index -v -n -z --stdin` on a throw-away bare git-dir with the source as work tree gives the verdict per entry (excluded iff the entry or an ancestor matches a non-negated last pattern), cross-checked against `git ls-files --others --exclude-standard` (a case where git disagrees with itself is dropped and counted); exit 0 => the set of relative paths in the destination equals the non-excluded set (everything without the flag). Non-trivial: flag on, >=1 entry excluded and >=1 copied; distinct by case hash.".into()
+        "proptest-generated source trees (3-21 entries over 12 names: files, directories incl. empty ones, hidden names, symlinks to files and to directories, depth <= 3) with a root .gitignore of 1-8 lines from a grammar instantiated over names that occur in the tree (and one that does not): literal, *.ext, prefix*, *suffix, ?, n?, **/n, n/**, n/ (directory only), /n (anchored), dir/n, each optionally negated with !, comments and blank lines (never a pattern matching .gitignore itself, no nested .gitignore); optionally a second source directory with its own tree and .gitignore; source directories named from the same name pool (so entries named like their source occur); both drivers; with and (15%) without --gitignore; on trees without any symbolic link additionally (40%) with -L, which must not change the outcome. Oracle: git itself - `git check-ignore --no-index -v -n -z --stdin` on a throw-away bare git-dir with the source as work tree gives the verdict per entry (excluded iff the entry or an ancestor matches a non-negated last pattern), cross-checked against `git ls-files --others --exclude-standard` (a case where git disagrees with itself is dropped and counted); exit 0 => the set of relative paths in the destination equals the non-excluded set (everything without the flag). Non-trivial: flag on, >=1 entry excluded and >=1 copied; distinct by case hash.".into()
     }
     fn assumptions(&self) -> Vec<String> {
         vec!["git 2.39 semantics are the reference for 'git's pattern semantics'".into()]
